@@ -52,6 +52,7 @@ def loop_bound_desc(s):
 class Fmt:
     """token stream of a writer (<< on an ostream parameter) or reader (>> on an istream
     parameter / TMCG_ParseHelper calls on the string parameter)"""
+    prog = None
 
     def __init__(self, f):
         self.f = f
@@ -90,6 +91,16 @@ class Fmt:
         if k == 'mcall' and e['f'].split('::')[-1] in ('getline',) and isinstance(e.get('o'), dict) and e['o'].get('k') == 'var' and e['o']['id'] in self.ins:
             out.append(('F', None))
             return
+        if k == 'call' and e.get('fid') and Fmt.prog is not None and getattr(self, 'depth', 0) < 3:
+            # a unit-private helper that is handed the text / the stream parses part of the format
+            g = Fmt.prog.funcs.get(e['fid'])
+            if g is not None and g.get('internal') and g.get('body'):
+                for x in e.get('a', []):
+                    self.expr(x, out) if not (isinstance(x, dict) and x.get('k') == 'var') else None
+                sub = Fmt(g)
+                sub.depth = getattr(self, 'depth', 0) + 1
+                out.extend(sub.stmt(g.get('body')))
+                return
         if k == 'call' and e.get('f', '').startswith('TMCG_ParseHelper::'):
             short = e['f'].split('::')[-1]
             if short == 'cm':
@@ -267,6 +278,7 @@ STREAM_PAIRS = [
 
 
 def run(ctx):
+    Fmt.prog = ctx.prog
     prog = ctx.prog
     n = 0
     # (A) delimiter formats: operator<< vs import
